@@ -1,6 +1,7 @@
 package main
 
 import (
+	"strconv"
 	"runtime"
 	"fmt"
 	"net"
@@ -446,12 +447,21 @@ func c20RunPoolSeq(c c20PoolSeq, seq string, o *vh.Out) {
 			}
 			ok := pool.Put(names[b], cn)
 			o.Obs("puts", 1)
+			// a full pool may refuse the newcomer or make room by closing one it holds: what counts is how many it keeps afterwards
+			live = 0
+			for ic := range s.idle {
+				if ic.isClosed() {
+					delete(s.idle, ic)
+				} else {
+					live++
+				}
+			}
 			switch {
 			case ok && shut:
 				viol("put-accepted-after-shutdown", i, "Put returned true after Shutdown")
 				return
 			case ok && live >= c.MaxIdle:
-				viol("max-idle-exceeded", i, fmt.Sprintf("Put accepted a connection although %d idle connections are already kept (max_idle %d)", live, c.MaxIdle))
+				viol("max-idle-exceeded", i, fmt.Sprintf("Put accepted a connection and keeps %d others idle as well (max_idle %d)", live, c.MaxIdle))
 				return
 			case ok && cn.isClosed():
 				viol("accepted-conn-closed", i, "Put returned true but closed the connection")
@@ -558,6 +568,9 @@ type c20OutT struct {
 }
 
 func c20BagModel(maxIdle int) porcupine.Model {
+	// The state is the set of connections the pool accepted and has not handed out, plus a number e of them that may
+	// already be gone: a full pool may refuse a newcomer or accept it and close one it holds (the statement fixes the
+	// bound, not the eviction policy). A Get may come back empty-handed only if every member may be gone.
 	return porcupine.Model{
 		Partition: func(h []porcupine.Operation) [][]porcupine.Operation {
 			by := map[string][]porcupine.Operation{}
@@ -570,10 +583,12 @@ func c20BagModel(maxIdle int) porcupine.Model {
 			}
 			return out
 		},
-		Init: func() interface{} { return "" },
+		Init: func() interface{} { return "0|" },
 		Step: func(state, input, output interface{}) (bool, interface{}) {
+			parts := strings.SplitN(state.(string), "|", 2)
+			e, _ := strconv.Atoi(parts[0])
 			set := map[string]bool{}
-			for _, x := range strings.Fields(state.(string)) {
+			for _, x := range strings.Fields(parts[1]) {
 				set[x] = true
 			}
 			in, out := input.(c20In), output.(c20OutT)
@@ -583,21 +598,28 @@ func c20BagModel(maxIdle int) porcupine.Model {
 					ks = append(ks, k)
 				}
 				sort.Strings(ks)
-				return strings.Join(ks, " ")
+				if e > len(set) {
+					e = len(set)
+				}
+				return fmt.Sprintf("%d|%s", e, strings.Join(ks, " "))
 			}
 			switch in.Kind {
 			case "put":
-				if len(set) >= maxIdle {
-					return !out.OK, state
-				}
 				if !out.OK {
-					return false, state
+					// refused: only a pool that may be full refuses
+					return len(set) >= maxIdle, state
+				}
+				if len(set)-e >= maxIdle {
+					// surely full: accepting means one of the members was closed to make room
+					e++
+				} else if len(set) >= maxIdle {
+					e++ // possibly full
 				}
 				set[fmt.Sprint(in.Conn)] = true
 				return true, enc()
 			case "get":
 				if out.Conn == 0 {
-					return len(set) == 0, state
+					return len(set)-e <= 0, state
 				}
 				k := fmt.Sprint(out.Conn)
 				if !set[k] {
@@ -608,7 +630,6 @@ func c20BagModel(maxIdle int) porcupine.Model {
 			}
 			return false, state
 		},
-		Equal: func(a, b interface{}) bool { return a.(string) == b.(string) },
 	}
 }
 
